@@ -642,4 +642,174 @@ theorem runSelectors_eq_css_of_ok (sels : List SelList) (hok : selsOk sels = tru
       (fun e anc i => denotation_eq_css sels hok e anc i)
       (fun e anc => matchingIds_sorted _ _ _ _) evs _ vm' {} 0 [] res rfl rfl
       (SemInv.init _ esi) hr
+
+/-! ## no panic on compiled programs -/
+
+theorem Vm.execAddrs_total (vm : Vm) (st : SelectorState) (m : AttributeMatcher) :
+    ∀ (addrs : List Nat) (ctx : ExecutionCtx),
+    (∀ a ∈ addrs, ∃ i, vm.fetch a = .ok i ∧ ∃ ob, i.exec st ctx.stackItem.localName m = .ok ob) →
+    ∃ ctx', vm.execAddrs st m addrs ctx = .ok ctx' := by
+  intro addrs
+  induction addrs with
+  | nil => intro ctx _; exact ⟨ctx, rfl⟩
+  | cons a rest ih =>
+    intro ctx h
+    obtain ⟨i, hf, ob, he⟩ := h a (by simp)
+    simp only [Vm.execAddrs, hf, he, bind, Except.bind]
+    apply ih
+    intro a' ha'
+    simpa using h a' (by simp [ha'])
+
+theorem Vm.execSetsWithAttrs_total (vm : Vm) (m : AttributeMatcher) :
+    ∀ (sets : List AddressRange) (ctx : ExecutionCtx),
+    (∀ r ∈ sets, ∀ a ∈ r.addrs, ∃ i, vm.fetch a = .ok i ∧
+      ∃ ob, i.exec (vm.stack.buildState ctx.stackItem.localName) ctx.stackItem.localName m = .ok ob) →
+    ∃ ctx', vm.execSetsWithAttrs m sets ctx = .ok ctx' := by
+  intro sets
+  induction sets with
+  | nil => intro ctx _; exact ⟨ctx, rfl⟩
+  | cons r rest ih =>
+    intro ctx h
+    obtain ⟨c1, h1⟩ := Vm.execAddrs_total vm _ m (r.addrsFrom 0) ctx (by
+      intro a ha; exact h r (by simp) a ha)
+    have hname := (Vm.execAddrs_sameFrame vm _ m _ _ _ h1).1
+    simp only [Vm.execSetsWithAttrs, Vm.execInstrSetWithAttrs, h1, bind, Except.bind]
+    apply ih
+    intro r' hr' a ha
+    rw [hname]
+    exact h r' (by simp [hr']) a ha
+
+theorem SemInv.parentJumps_iff {vm ts nth} (inv : SemInv vm ts nth) (name : Bytes) (r : AddressRange) :
+    r ∈ ({ vm with stack := vm.stack.addChild name } : Vm).parentJumps ↔
+      ∃ S, (ancActs vm.program nth ts.ancestors).head? = some S ∧ ∃ a b, S a b ∧ b.jumps = some r := by
+  rw [addChild_parentJumps]
+  exact parentJumps_sem inv.items r
+
+theorem SemInv.activeRanges_iff {vm ts nth} (inv : SemInv vm ts nth) (name : Bytes) (r : AddressRange) :
+    r ∈ ({ vm with stack := vm.stack.addChild name } : Vm).activeRanges ↔
+      ∃ S ∈ ancActs vm.program nth ts.ancestors, ∃ a b, S a b ∧ b.hereditaryJumps = some r := by
+  unfold Vm.activeRanges
+  simp only [addChild_active]
+  rw [inv.active.mem_ranges r, ← AllSem.mem_hj inv.items r]
+  simp
+
+theorem listCompiled_valid {instrs : List Instruction} {nodes : List AstNode} {s : Nat}
+    (hl : ListCompiled instrs nodes s) (a : Nat) (h1 : s ≤ a) (h2 : a < s + nodes.length) :
+    ∃ i, instrs[a]? = some i := by
+  obtain ⟨k, hk⟩ : ∃ k, a = s + k := ⟨a - s, by omega⟩
+  have hklt : k < nodes.length := by omega
+  obtain ⟨j, hj, hi⟩ := (hl.get k nodes[k] (List.getElem?_eq_getElem hklt)).instr
+  exact ⟨_, by rw [hk]; exact hi⟩
+
+section Total
+variable (prog : Program) (nth : Bool) (root : List AstNode)
+  (hroot : ListCompiled prog.instructions root prog.entryPoints.start)
+  (hentry : prog.entryPoints.stop = prog.entryPoints.start + root.length)
+  (hnth : ∀ i ∈ prog.instructions, nth = true ∨ ¬ i.localNameExprs.any exprIsNthOfType = true)
+include hroot hentry hnth
+
+omit hnth in
+theorem entry_valid (a : Nat) (ha : a ∈ prog.entryPoints.addrs) : ∃ i, prog.instructions[a]? = some i := by
+  rw [mem_addrs, hentry] at ha
+  exact listCompiled_valid hroot a ha.1 ha.2
+
+theorem act_ranges_valid {e : Elem} {anc : List Elem} {a' : Nat} {b' : ExecutionBranch}
+    (hact : Act prog nth e anc a' b') (r : AddressRange)
+    (hr : b'.jumps = some r ∨ b'.hereditaryJumps = some r) (a : Nat) (ha : a ∈ r.addrs) :
+    ∃ i, prog.instructions[a]? = some i := by
+  obtain ⟨σ, n, hat, _, i0, hi0, hb⟩ := (act_iff prog nth root hroot hentry hnth e anc a' b').mp hact
+  have hc := hat.compiled hroot
+  rw [mem_addrs] at ha
+  rw [← hb] at hr
+  rcases hr with hr | hr
+  · rcases hc.children hi0 with ⟨_, hnone⟩ | ⟨_, s, hs, hl⟩
+    · rw [hnone] at hr; cases hr
+    · rw [hs] at hr; cases hr
+      exact listCompiled_valid hl a ha.1 ha.2
+  · rcases hc.descendants hi0 with ⟨_, hnone⟩ | ⟨_, s, hs, hl⟩
+    · rw [hnone] at hr; cases hr
+    · rw [hs] at hr; cases hr
+      exact listCompiled_valid hl a ha.1 ha.2
+
+/-- a start tag never panics on a laid-out program -/
+theorem SemInv.handleStartTag_total {vm : Vm} {ts : TreeState} (inv : SemInv vm ts nth) (hp : vm.program = prog)
+    (t : StartTag) : ∃ r, vm.handleStartTag t = .ok r := by
+  rw [Vm.handleStartTag_eq]
+  have hst := inv.buildState_eq t
+  have hvalid : ∀ a, (∃ i, prog.instructions[a]? = some i) →
+      ∃ i, ({ vm with stack := vm.stack.addChild t.name } : Vm).fetch a = .ok i ∧
+        ∃ ob, i.exec (({ vm with stack := vm.stack.addChild t.name } : Vm).stack.buildState t.name) t.name
+          ⟨t.attrs, t.ns == .html⟩ = .ok ob := by
+    rintro a ⟨i, hi⟩
+    refine ⟨i, by simp [Vm.fetch, hp, hi, pure, Except.pure], ?_⟩
+    simp only [hst]
+    have := exec_eq_predB nth (ts.elemFor t) i (hnth i (List.mem_of_getElem? hi))
+    exact ⟨_, this⟩
+  simp only [Vm.execAllWithAttrs, Vm.execJumpsWithAttrs, Vm.execHereditaryJumpsWithAttrs,
+    Vm.execSetsFromPtr_zero, Vm.execInstrSetWithAttrs, bind, Except.bind]
+  obtain ⟨c1, h1⟩ := Vm.execAddrs_total ({ vm with stack := vm.stack.addChild t.name } : Vm)
+    (({ vm with stack := vm.stack.addChild t.name } : Vm).stack.buildState (startCtx t vm.enableEsiTags).stackItem.localName)
+    ⟨t.attrs, t.ns == .html⟩ (vm.program.entryPoints.addrsFrom 0) (startCtx t vm.enableEsiTags) (by
+      intro a ha
+      apply hvalid
+      rw [hp] at ha
+      exact entry_valid prog root hroot hentry a ha)
+  have hn1 := (Vm.execAddrs_sameFrame _ _ _ _ _ _ h1).1
+  simp only [h1]
+  obtain ⟨c2, h2⟩ := Vm.execSetsWithAttrs_total ({ vm with stack := vm.stack.addChild t.name } : Vm)
+    ⟨t.attrs, t.ns == .html⟩ ({ vm with stack := vm.stack.addChild t.name } : Vm).parentJumps c1 (by
+      intro r hr a ha
+      rw [hn1]
+      apply hvalid
+      obtain ⟨S, hS, a', b', hS', hj⟩ := (inv.parentJumps_iff t.name r).mp hr
+      cases hanc : ts.ancestors with
+      | nil => rw [hanc] at hS; simp [ancActs] at hS
+      | cons q anc' =>
+        rw [hanc] at hS
+        simp only [ancActs, List.head?_cons, Option.some.injEq] at hS
+        subst hS
+        rw [hp] at hS'
+        exact act_ranges_valid prog nth root hroot hentry hnth hS' r (Or.inl hj) a ha)
+  have hn2 := (Vm.execSetsWithAttrs_sameFrame _ _ _ _ _ h2).1
+  simp only [h2]
+  obtain ⟨c3, h3⟩ := Vm.execSetsWithAttrs_total ({ vm with stack := vm.stack.addChild t.name } : Vm)
+    ⟨t.attrs, t.ns == .html⟩ ({ vm with stack := vm.stack.addChild t.name } : Vm).activeRanges c2 (by
+      intro r hr a ha
+      rw [hn2, hn1]
+      apply hvalid
+      obtain ⟨S, hS, a', b', hS', hj⟩ := (inv.activeRanges_iff t.name r).mp hr
+      obtain ⟨pre, q, rest, _, hSeq⟩ := (mem_ancActs vm.program nth ts.ancestors S).mp hS
+      subst hSeq
+      rw [hp] at hS'
+      exact act_ranges_valid prog nth root hroot hentry hnth hS' r (Or.inr hj) a ha)
+  simp only [h3]
+  exact ⟨_, rfl⟩
+
+/-- a whole run never panics on a laid-out program -/
+theorem SemInv.runAux_total : ∀ (evs : List Event) (vm : Vm) (ts : TreeState) (ord acc),
+    vm.program = prog → SemInv vm ts nth → ∃ r, vm.runAux evs ord acc = .ok r := by
+  intro evs
+  induction evs with
+  | nil => intro vm ts ord acc _ _; exact ⟨_, rfl⟩
+  | cons e rest ih =>
+    intro vm ts ord acc hp inv
+    cases e with
+    | start t =>
+      obtain ⟨r, hr⟩ := SemInv.handleStartTag_total prog nth root hroot hentry hnth inv hp t
+      obtain ⟨_, _, hp1, _, inv1⟩ := inv.handleStartTag hr
+      simp only [Vm.runAux, hr, bind, Except.bind]
+      exact ih r.1 _ _ _ (hp1.trans hp) inv1
+    | end_ n =>
+      obtain ⟨vm1, he, hp1, _, inv1⟩ := inv.handleEndTag n
+      simp only [Vm.runAux, he, bind, Except.bind]
+      exact ih vm1 _ _ _ (hp1.trans hp) inv1
+end Total
+
+/-- The model VM never panics on a program produced by `compile` from registered selectors. -/
+theorem runSelectors_total (sels : List SelList) (esi : Bool) (evs : List Event) :
+    ∃ res, runSelectors sels esi evs = .ok res := by
+  obtain ⟨hroot, hentry, hnth⟩ := compile_layout (Ast.ofSelectors sels) (ofSelectors_count sels)
+  obtain ⟨r, hr⟩ := SemInv.runAux_total _ _ _ hroot hentry hnth evs
+    (Vm.new (Ast.ofSelectors sels) esi) {} 0 [] rfl (SemInv.init _ esi)
+  exact ⟨r.2, by simp [runSelectors, hr, bind, Except.bind, pure, Except.pure]⟩
 end LolHtml.SelVM
